@@ -159,6 +159,7 @@ func (r *Registry) GetCounter(metricName string, labels prometheus.Labels, help 
 	hash, labelNames := r.HashLabels(labels)
 	vh, mh := r.Get(metricName, hash, metrics.CounterMetricType)
 	if mh != nil {
+		r.refreshTTL(metricName, hash, mapping.Ttl)
 		return mh.(prometheus.Counter), nil
 	}
 
@@ -231,6 +232,7 @@ func (r *Registry) GetGauge(metricName string, labels prometheus.Labels, help st
 	hash, labelNames := r.HashLabels(labels)
 	vh, mh := r.Get(metricName, hash, metrics.GaugeMetricType)
 	if mh != nil {
+		r.refreshTTL(metricName, hash, mapping.Ttl)
 		return mh.(prometheus.Gauge), nil
 	}
 
@@ -273,6 +275,7 @@ func (r *Registry) GetHistogram(metricName string, labels prometheus.Labels, hel
 	hash, labelNames := r.HashLabels(labels)
 	vh, mh := r.Get(metricName, hash, metrics.HistogramMetricType)
 	if mh != nil {
+		r.refreshTTL(metricName, hash, mapping.Ttl)
 		return mh.(prometheus.Observer), nil
 	}
 
@@ -331,6 +334,7 @@ func (r *Registry) GetSummary(metricName string, labels prometheus.Labels, help 
 	hash, labelNames := r.HashLabels(labels)
 	vh, mh := r.Get(metricName, hash, metrics.SummaryMetricType)
 	if mh != nil {
+		r.refreshTTL(metricName, hash, mapping.Ttl)
 		return mh.(prometheus.Observer), nil
 	}
 
@@ -393,6 +397,14 @@ func (r *Registry) GetSummary(metricName string, labels prometheus.Labels, help 
 	r.rememberHelp(metricName, help)
 
 	return observer, nil
+}
+
+// refreshTTL applies the ttl of the mapping that matched the current sample to an
+// already registered series, so that a changed ttl takes effect with the next sample.
+func (r *Registry) refreshTTL(metricName string, hash metrics.LabelHash, ttl time.Duration) {
+	if rm, ok := r.Metrics[metricName].Metrics[hash.Values]; ok {
+		rm.TTL = ttl
+	}
 }
 
 // familyHelp returns the help string a new vector of metricName has to carry.
